@@ -153,7 +153,7 @@ func c10History(c *Ctx, id string, conf machConf, autosave bool, n int, opts mac
 
 func init() {
 	register("C10", func(c *Ctx) {
-		c.Rule = "seeded histories of management calls (single/batch/Ex add, remove, update, batch update, filtered removal, Self* calls, ClearPolicy, LoadPolicy, SavePolicy, auto-save toggles, injected adapter failures) of length 8..30 on three models (RBAC with p/p2/g/g2, domains, priority) under both initial auto-save settings, every step compared with the model on result, listed rules, adapter call log and content; text round trip through the real file and string adapters. Distinct = history; non-trivial = the history changes the listed rules."
+		c.Rule = "seeded histories of management calls (single/batch/Ex add, remove, update, batch update, filtered removal, Self* calls, ClearPolicy, LoadPolicy, SavePolicy, auto-save toggles, injected adapter failures) of length 8..30 on three models (RBAC with p/p2/g/g2, domains, priority) under both initial auto-save settings, every step compared with the model on result, listed rules, adapter call log and content; text round trip through the real file and string adapters. Distinct = history; non-trivial = the history changes the listed rules. Additions: every Self* entry point, UpdateFilteredPolicies (auto-save on), one-rule batches, field values equal to policy-type names; text round trip over four rule types (p, p2, g, g2 of different arities) with empty fields and trailing blanks, the loaded rules compared with an independent reading of the text, and a shrunk policy saved over the longer file."
 		nh := 5000
 		if c.Thorough() {
 			nh = 20000
